@@ -476,10 +476,11 @@ Proof.
 Qed.
 
 (** the store and the clock are touched by very few events *)
-Definition keeps (s s' : state) : Prop := st_store s' = st_store s ∧ st_now s' = st_now s.
+Definition keeps (s s' : state) : Prop :=
+  st_store s' = st_store s ∧ st_now s' = st_now s ∧ st_shut s' = st_shut s ∧ st_shutg s' = st_shutg s.
 Lemma keeps_refl s : keeps s s. Proof. done. Qed.
 Lemma keeps_trans s1 s2 s3 : keeps s1 s2 → keeps s2 s3 → keeps s1 s3.
-Proof. intros [? ?] [? ?]. split; congruence. Qed.
+Proof. intros (?&?&?&?) (?&?&?&?). repeat split; congruence. Qed.
 Lemma keeps_upd s id f : keeps s (upd_job s id f). Proof. done. Qed.
 Lemma keeps_wait s p l : keeps s (set_wait s p l). Proof. done. Qed.
 Lemma keeps_log s o : keeps s (log s o). Proof. done. Qed.
@@ -545,13 +546,17 @@ Qed.
 Lemma keeps_step s e s' r :
   step s e = Some (s', r) →
   match e with
-  | EvTick d => st_store s' = st_store s ∧ st_now s' = (st_now s + Z.of_nat d)%Z
+  | EvTick d => st_store s' = st_store s ∧ st_now s' = (st_now s + Z.of_nat d)%Z ∧ st_shut s' = st_shut s ∧ st_shutg s' = st_shutg s
   | EvSave => s' = do_save (clear_req s)
-  | EvShutdownReturn => st_store s' = st_store (do_save (clear_req s)) ∧ st_now s' = st_now s
+  | EvShutdownReturn => st_store s' = st_store (do_save (clear_req s)) ∧ st_now s' = st_now s ∧ st_shut s' = st_shut s ∧ st_shutg s' = None
+  | EvRestart => st_store s' = st_store s ∧ st_now s' = st_now s ∧ st_shut s' = false ∧ st_shutg s' = None ∧ st_shutg s = None
+  | EvShutdownBegin => st_store s' = st_store s ∧ st_now s' = st_now s ∧ st_shut s' = true ∧ st_shutg s' = Some false
+  | EvShutdownForce => st_store s' = st_store s ∧ st_now s' = st_now s ∧ st_shut s' = st_shut s ∧ st_shutg s' = Some true ∧ st_shutg s = Some false
   | _ => keeps s s'
   end.
 Proof.
   unfold step. change (st_store s) with (st_store (clear_req s)). change (st_now s) with (st_now (clear_req s)).
+  change (st_shut s) with (st_shut (clear_req s)). change (st_shutg s) with (st_shutg (clear_req s)).
   assert (Hk : keeps s (clear_req s)) by done. generalize dependent (clear_req s). intros s0 Hk.
   assert (Hfin : ∀ s1, keeps s0 s1 → keeps s s1) by (intros s1; by apply keeps_trans).
   destruct e as [p v u|id|d|id|ds|id|id n|id n|id n o|id|id| | | | | ]; simpl.
@@ -561,7 +566,7 @@ Proof.
     + eapply keeps_trans; [|apply keeps_start_job]. done.
     + destruct (last _); done.
   - intros [= Heq]. replace s' with (cancel_job s0 id true).1 by (by rewrite Heq). apply Hfin, keeps_cancel.
-  - destruct Hk as [-> ->]. by intros [= <- _].
+  - by intros [= <- _].
   - unfold do_fire_timer. destruct (get_job _ id) as [j|]; [|done]. destruct (timer_due _ j); [|done].
     destruct (find_job _ id); simpl.
     + destruct (j_canceled j); simpl; intros [= <- _]; apply Hfin; [done|]. eapply keeps_trans; [|apply keeps_dequeue_loop]. done.
@@ -595,45 +600,60 @@ Proof.
     destruct (j_removed j); simpl; intros [= <- _]; apply Hfin; [done|].
     eapply keeps_trans; [|apply keeps_req]. eapply keeps_trans; [|apply keeps_dequeue_loop]. done.
   - by intros [= <- _].
-  - unfold do_restart. destruct (st_shutg _); [done|]. destruct (all_quiet _); [|done]. simpl. intros [= <- _]. by apply Hfin.
-  - unfold do_shutdown_begin. destruct (st_shutg _); [done|]. destruct (st_shut _); [done|]. simpl. intros [= <- _]. by apply Hfin.
+  - unfold do_restart. destruct (st_shutg _) eqn:Hg; [done|]. destruct (all_quiet _); [|done]. simpl. intros [= <- _]. done.
+  - unfold do_shutdown_begin. destruct (st_shutg _); [done|]. destruct (st_shut _); [done|]. simpl. intros [= <- _]. done.
   - unfold do_shutdown_force. destruct (st_shutg _) as [[]|]; try done. destruct (any_running _); [|done]. simpl. intros [= <- _].
-    apply Hfin. destruct (keeps_fold_cancel (seq 0 (length (st_jobs s0))) s0) as [H1 H2]. split; simpl; done.
+    destruct (keeps_fold_cancel (seq 0 (length (st_jobs s0))) s0) as (H1 & H2 & H3 & H4). repeat split; simpl; done.
   - unfold do_shutdown_return. destruct (st_shutg _); [|done]. destruct (_ && _); [|done]. simpl. intros [= <- _].
-    split; done.
+    repeat split; done.
 Qed.
 
 (** the store stays consistent with the clock *)
 Lemma store_ok_step s e s' r : RInv (abs s) → store_ok s → step s e = Some (s', r) → store_ok s'.
 Proof.
   intros Hinv Hst Hs. pose proof (keeps_step s e s' r Hs) as Hk.
-  assert (Hkeep : keeps s s' → store_ok s') by (intros [H1 H2]; unfold store_ok; by rewrite H1, H2).
-  destruct e; try (by apply Hkeep).
-  - destruct Hk as [H1 H2]. unfold store_ok in *. rewrite H1, H2. eapply Forall_impl; [exact Hst|].
+  assert (Hkeep : st_store s' = st_store s → st_now s' = st_now s → store_ok s') by (intros H1 H2; unfold store_ok; by rewrite H1, H2).
+  destruct e; try (destruct Hk as (H1 & H2 & _); by apply Hkeep).
+  - destruct Hk as (H1 & H2 & _). unfold store_ok in *. rewrite H1, H2. eapply Forall_impl; [exact Hst|].
     intros pj. apply pjob_ok_mono. lia.
   - subst s'. by apply save_store_ok.
-  - destruct Hk as [H1 H2]. unfold store_ok. rewrite H1, H2.
+  - destruct Hk as (H1 & H2 & _). unfold store_ok. rewrite H1, H2.
     pose proof (save_store_ok (clear_req s) Hinv) as H. unfold store_ok in H. done.
 Qed.
 
-Definition SInv (s : state) : Prop := RInv (abs s) ∧ store_ok s.
+(** while a Shutdown call is in progress the runner is shutting down *)
+Definition shutg_ok (s : state) : Prop := is_Some (st_shutg s) → st_shut s = true.
+
+Lemma shutg_ok_step s e s' r : shutg_ok s → step s e = Some (s', r) → shutg_ok s'.
+Proof.
+  intros Hok Hs. pose proof (keeps_step s e s' r Hs) as Hk. unfold shutg_ok in *.
+  destruct e; try (destruct Hk as (_ & _ & -> & ->); done).
+  - subst s'. done.
+  - destruct Hk as (_ & _ & _ & -> & _). by intros [? ?].
+  - destruct Hk as (_ & _ & -> & _ & Hg). intros _. apply Hok. by rewrite Hg.
+  - destruct Hk as (_ & _ & _ & ->). by intros [? ?].
+Qed.
+
+Definition SInv (s : state) : Prop := RInv (abs s) ∧ store_ok s ∧ shutg_ok s.
 
 Theorem reach_sinv s : reach s → SInv s ∧ rreach (abs s).
 Proof.
-  induction 1 as [ds|ds pjs Hok|s e s' r Hr [[Hinv Hst] Hrr] Hs].
-  - split; [split; [apply init_inv|by constructor]|apply rreach_init].
+  induction 1 as [ds|ds pjs Hok|s e s' r Hr [(Hinv & Hst & Hg) Hrr] Hs].
+  - split; [split; [apply init_inv|split; [by constructor|by intros [? ?]]]|apply rreach_init].
   - assert (Hterm : forallb (r_terminal 0) (map abs_job (map from_pjob pjs)) = true).
     { apply forallb_forall. intros rj Hin. apply elem_of_list_In in Hin. rewrite map_map in Hin.
       change (map (fun x => abs_job (from_pjob x))) with (fmap (M:=list) (fun x => abs_job (from_pjob x))) in Hin.
       apply elem_of_list_fmap in Hin as (pj & -> & Hin). apply from_pjob_terminal.
       rewrite Forall_forall in Hok. by apply Hok. }
-    split; [split|].
+    split; [split; [|split]|].
     + by apply terminal_inv.
     + done.
+    + by intros [? ?].
     + by apply rreach_init_from.
-  - split; [split|].
+  - split; [split; [|split]|].
     + destruct (refine_step s e s' r Hinv Hst Hs) as [[-> _]|(re & Hre & _)]; [done|]. by eapply rstep_inv.
     + by eapply store_ok_step.
+    + by eapply shutg_ok_step.
     + destruct (refine_step s e s' r Hinv Hst Hs) as [[-> _]|(re & Hre & _)]; [done|]. by eapply rreach_step.
 Qed.
 
@@ -644,4 +664,7 @@ Corollary reach_inv s : reach s → RInv (abs s).
 Proof. intros H. by apply reach_sinv. Qed.
 
 Corollary reach_store_ok s : reach s → store_ok s.
+Proof. intros H. by apply reach_sinv. Qed.
+
+Corollary reach_shutg_ok s : reach s → shutg_ok s.
 Proof. intros H. by apply reach_sinv. Qed.
